@@ -1,6 +1,7 @@
 """C03 — numbers get the documented type and the exact value (DESIGN §5.3: P2 + T2 read side)."""
 from ..e2.checklib import Lemma, run_lemmas
 from ..e2.intr_num import NumIntrinsics
+from ..e2.intr_stage2 import Stage2SummIntrinsics
 from . import C12
 
 PN = "github.com/minio/simdjson-go.parseNumber"
@@ -42,6 +43,10 @@ def run(ctx):
     ctx.assume("strconv.ParseInt/ParseUint(s,10,64): nil <=> [+-]?[0-9]+ (no sign for ParseUint) and in range, exact value; ErrRange <=> grammar ok and out of range (contract)")
     ctx.assume("call-site precondition: first byte is '-' or a digit; the message ends in '}' or ']' (stage 1's end-of-message verdict, lemma G1)")
     ls = p2_lemmas(ctx.tier)
+    ls.append(Lemma("P2.handoff", "verifHarness_P2_Handoff", ["zz_verif_p2.go"], intr=Stage2SummIntrinsics,
+                    desc="addNumber on literals of 66..73 bytes (digits, an exponent beyond byte 64, terminator): it hands parseNumber the whole "
+                         "buffer and writes exactly its tag and value (parseNumber = uninterpreted oracle of the bytes it is given)",
+                    bound="literals of 66..73 bytes", expect_reach=["P2.handoff"]))
     # read side: the numeric accessors expose tag/value/flags exactly (shared with C12)
     ls += [l for l in C12.lemmas(ctx.tier) if l.name.startswith("T2.")]
     run_lemmas(ctx, ls)
